@@ -176,8 +176,55 @@ func simSelfTest(w *World) {
 	if string(srvGot) != "hello world" {
 		bad("tcp peer received %q, want \"hello world\"", srvGot)
 	}
-	if done != 2 {
-		bad("self-test goroutines finished: %d of 2", done)
+	// 3. backpressure: a peer that does not read takes `window` bytes; the rest of a write blocks until it reads again
+	// or the writer's deadline passes (a partial write and a timeout; the connection stays open)
+	var slowGot []byte
+	var slowEnd *simnet.TCPEnd
+	n.ActorListen("10.9.0.4", 7200, func(end *simnet.TCPEnd) {
+		slowEnd = end
+		end.OnData = func(b []byte) { slowGot = append(slowGot, b...) }
+	})
+	phase3 := 0
+	step("tcp-backpressure", func() {
+		c, err := simnet.DialTCP("tcp", nil, &net.TCPAddr{IP: net.ParseIP("10.9.0.4"), Port: 7200})
+		if err != nil {
+			bad("DialTCP: %v", err)
+			return
+		}
+		phase3 = 1
+		simrt.Sleep(10 * time.Millisecond) // the harness stalls the peer now (window 10 bytes, 2 s)
+		t0 := time.Now()
+		c.SetWriteDeadline(time.Now().Add(300 * time.Millisecond))
+		k, err := c.Write([]byte("0123456789abcdefghijklmno"))
+		if k != 10 || !isTimeout(err) || time.Since(t0) != 300*time.Millisecond {
+			bad("write to a stalled peer with a deadline: n=%d err=%v after %v (want 10, timeout, 300ms)", k, err, time.Since(t0))
+		}
+		c.SetWriteDeadline(time.Time{})
+		t1 := time.Now()
+		k, err = c.Write([]byte("PQRSTUVWXYZ"))
+		if k != 11 || err != nil || time.Since(t1) < time.Second {
+			bad("blocking write to a stalled peer: n=%d err=%v after %v (want 11, nil, when the peer reads again)", k, err, time.Since(t1))
+		}
+		k, err = c.Write([]byte("!"))
+		if k != 1 || err != nil {
+			bad("write after the peer reads again: n=%d err=%v", k, err)
+		}
+		c.Close()
+	})
+	for i := 0; i < 20 && phase3 == 0; i++ {
+		w.K.Advance(time.Millisecond)
+	}
+	if slowEnd == nil {
+		bad("backpressure: no connection accepted")
+		return
+	}
+	slowEnd.Stall(2*time.Second, 10)
+	w.K.Advance(5 * time.Second)
+	if string(slowGot) != "0123456789PQRSTUVWXYZ!" {
+		bad("stalled peer received %q, want \"0123456789PQRSTUVWXYZ!\"", slowGot)
+	}
+	if done != 3 {
+		bad("self-test goroutines finished: %d of 3", done)
 	}
 	w.Stats["judged:SIMSELF"]++
 }
